@@ -54,6 +54,19 @@ PATH_FAULTS = ["model-missing", "model-is-dir", "snippets-missing", "snippets-is
 DEFICIENCIES = ["missing", "empty", "garbage", "non-utf8", "extra-file"]
 
 JOINT_OPS = [op for op in g.OPS]
+# collectors that intermediate._verify runs unconditionally one after the other (every one of them must report);
+# the constructor/property match is documented to be skipped when a property is not initialised at all
+CROSS_STAGE = {
+    "intermediate._verify_invariant_descriptions_unique",
+    "intermediate._verify_optional_constructor_arguments_default_to_none",
+    "intermediate._verify_all_properties_are_initialized_in_the_constructor",
+    "intermediate._verify_constructor_arguments_and_properties_match",
+    "intermediate._verify_patterns_anchored_at_start_and_end",
+}
+CROSS_DEPENDENT = {
+    frozenset(("intermediate._verify_all_properties_are_initialized_in_the_constructor",
+               "intermediate._verify_constructor_arguments_and_properties_match")),
+}
 
 
 # ---------------------------------------------------------------------------
@@ -123,6 +136,16 @@ def cases(draw: Any) -> Dict[str, Any]:
         case["op"] = op.name
         case["s1"] = s1
         case["s2"] = s2
+        # cross-operator variant: two DIFFERENT rules of the same verification stage, broken in different classes
+        cross = [o for o, _ in applicable if o.where in CROSS_STAGE]
+        if len(cross) >= 2 and rng.random() < 0.35:
+            o1, o2 = rng.sample(cross, 2)
+            if frozenset((o1.where, o2.where)) not in CROSS_DEPENDENT:
+                sites1, sites2 = o1.sites(src), o2.sites(src)
+                pairs2 = [(a, b) for a in sites1 for b in sites2 if a[0] != b[0]]
+                if pairs2:
+                    a, b = rng.choice(pairs2)
+                    case.update({"op": o1.name, "op2": o2.name, "s1": a, "s2": b})
     return case
 
 
@@ -305,15 +328,24 @@ def _joint(case: Dict[str, Any], d: pathlib.Path, res: Dict[str, Any]) -> None:
     op = g.OPS_BY_NAME.get(case.get("op"))
     if op is None:
         return
+    op2 = g.OPS_BY_NAME.get(case.get("op2")) if case.get("op2") else op
+    if op2 is None:
+        return
+    crossed = op2 is not op
     try:
         src = g.Src(case["text"])
         t1 = op.apply(src, case["s1"])
-        t2 = op.apply(src, case["s2"])
-        t12 = op.apply(g.Src(t1), case["s2"]) if t1 is not None else None
+        t2 = op2.apply(src, case["s2"])
+        t12 = op2.apply(g.Src(t1), case["s2"]) if t1 is not None else None
     except (SyntaxError, ValueError, IndexError, KeyError, TypeError, AttributeError):
         res["classes"].append("joint:inapplicable")
         return
-    if t1 is None or t2 is None or t12 is None or not g.independent(op, case["s1"], case["s2"]):
+    if crossed:
+        indep = (op.where in CROSS_STAGE and op2.where in CROSS_STAGE
+                 and frozenset((op.where, op2.where)) not in CROSS_DEPENDENT and case["s1"][0] != case["s2"][0])
+    else:
+        indep = g.independent(op, case["s1"], case["s2"])
+    if t1 is None or t2 is None or t12 is None or not indep:
         res["classes"].append("joint:inapplicable")
         return
     errs = []
@@ -337,12 +369,14 @@ def _joint(case: Dict[str, Any], d: pathlib.Path, res: Dict[str, Any]) -> None:
         return
     # the single-mutant reports must consist of the operator's own kind of error only (same collecting loop);
     # a mutation that also trips another check (side effect in a dependent entity) is not judged
-    for e, site in ((e1, case["s1"]), (e2, case["s2"])):
-        if not all(op.needle(site) in leaf for leaf in g.leaves(e)):
+    for e, site, o in ((e1, case["s1"], op), (e2, case["s2"], op2)):
+        if not all(o.needle(site) in leaf for leaf in g.leaves(e)):
             res["classes"].append("joint:side-effects")
             return
     res["nt"] = True
     res["classes"].append("joint:judged")
+    if crossed:
+        res["classes"].append("joint:judged:cross-operator")
     if rc12 == 0:
         res["fails"].append((f"error-dropped@{op.where}", f"op={op.name}: both single mutants are rejected, the joint mutant is ACCEPTED"))
         return
@@ -350,9 +384,10 @@ def _joint(case: Dict[str, Any], d: pathlib.Path, res: Dict[str, Any]) -> None:
     have = collections.Counter(g.leaves(e12))
     missing = need - have
     if missing:
+        where = op.where if not crossed else "cross:" + "+".join(sorted((op.where.split(".")[-1], op2.where.split(".")[-1])))
         res["fails"].append((
-            f"error-dropped@{op.where}",
-            f"op={op.name} sites={case['s1']},{case['s2']}\nmissing from the joint report: {sorted(missing.elements())!r}\n"
+            f"error-dropped@{where}",
+            f"op={op.name} op2={op2.name} sites={case['s1']},{case['s2']}\nmissing from the joint report: {sorted(missing.elements())!r}\n"
             f"--- report(m(e1)):\n{e1}\n--- report(m(e2)):\n{e2}\n--- report(joint):\n{e12}"))
 
 
